@@ -1092,6 +1092,7 @@ def _masked_elementwise(fn, a, b, kind):
         m.maxis,
         m.mask_fn,
         m.count,
+        m.orig_n,
     )
 
 
@@ -1638,6 +1639,17 @@ def _exists(c, k, n, u):
         return r_cmp(">", n, 0)
     if not core._has_const(u, k):
         return b_and(u, r_cmp(">", n, 0))
+    if z3.is_and(u):
+        # exists k. (A(k) and c) == c and exists k. A(k)   for binder-free conjuncts c
+        free = [a for a in u.children() if not core._has_const(a, k)]
+        dep = [a for a in u.children() if core._has_const(a, k)]
+        if free:
+            return b_and(*(free + [_exists(c, k, n, b_and(*dep))]))
+    if z3.is_or(u):
+        free = [a for a in u.children() if not core._has_const(a, k)]
+        dep = [a for a in u.children() if core._has_const(a, k)]
+        if free:
+            return b_or(b_and(b_or(*free), r_cmp(">", n, 0)), _exists(c, k, n, b_or(*dep)))
     bset = frozenset([k.get_id()])
     border, params = {}, []
     tmpl = sg._template(u, bset, border, params, {})
